@@ -152,6 +152,45 @@ async def run_decode(ctx) -> None:
     ctx.probe("live_decodes_compared", len(got))
     tr.close()
     await asyncio.sleep(0.05)
+    # pass 4: through a whole Gateway (which re-classes messages and merges the two halves of a split array), replayed as a packet
+    # log 0.4 s apart, every array line twice (so that array pairs of one source occur): the payload a handler was given is the
+    # same whenever it is looked at again -- a later packet never changes an earlier message
+    import io
+    from ramses_rf import Gateway
+
+    seen4: list[tuple] = []
+
+    def handler4(msg):
+        seen4.append((msg, jdump(ctx, msg.payload, str(msg._pkt)), str(msg._pkt)))
+
+    rows = []
+    t4 = _dt.datetime(2023, 11, 6, 8)
+    for i in order3:
+        reps = 2 if (isinstance(json.loads(base[i]), list) and lines[i][4:6].strip() == "I") else 1
+        for _ in range(reps):
+            t4 += _dt.timedelta(seconds=0.4)
+            rows.append(f"{t4.isoformat(timespec='microseconds')} {lines[i]}")
+    if rows:
+        gw4 = Gateway(None, input_file=io.TextIOWrapper(io.BytesIO(("\n".join(rows) + "\n").encode("latin-1")), encoding="latin-1"),
+                      config={"disable_discovery": True, "enforce_known_list": False, "reduce_processing": 0})
+        gw4.add_msg_handler(handler4)
+        try:
+            await asyncio.wait_for(gw4.start(), 120)
+        except Exception as err:  # noqa
+            ctx.probe(f"gateway_pass_start_raised_{type(err).__name__}")
+        await asyncio.sleep(0.2)
+        for msg, j_then, text in seen4:
+            j_now = jdump(ctx, msg.payload, text)
+            if j_now != j_then:
+                ctx.violate("C05", "nondeterministic", "payload_changed_after_delivery", f"{text!r}: the handler was given "
+                            f"{str(j_then)[:300]}; the same message now reads {str(j_now)[:300]}")
+                break
+        ctx.probe("gateway_pass_messages", len(seen4))
+        try:
+            await gw4.stop()
+        except Exception:  # noqa
+            pass
+        await asyncio.sleep(0.05)
     ctx.ab(f"decode:{len(lines)}:{len(base)}")
     for i in sorted(base):
         ctx.ab(lines[i][4:6] + lines[i][41:45])
